@@ -195,7 +195,7 @@ func (c *Ctx) anchors() *Anchors {
 	} else {
 		for _, cal := range staticCallees(a.reflectRes) {
 			res := cal.Signature.Results()
-			if res.Len() == 1 {
+			if res.Len() >= 1 {
 				if s, ok := res.At(0).Type().Underlying().(*types.Slice); ok {
 					if n, ok := s.Elem().(*types.Named); ok && n.Obj().Name() == "Value" && n.Obj().Pkg().Path() == "reflect" {
 						a.reflArgs = cal
